@@ -394,7 +394,9 @@ Definition judge (p : str) (sfx : option str) (rules : list rule) (expires : lis
           else if negb (forallb (fun kv => replay_exempt rule (fst kv) || hhas (rs_hdrs r) (fst kv) || str_eqb (to_lower (fst kv)) (bytes "content-type")) (cobs_hdrs o))
           then verdict false "the response carries a header neither the origin sent nor rrrouter documents"
           else v_ok
-        | _, _ => v_ok
+        | _, _ =>
+          (* answered without the origin (a hit, possibly with a Range header): still one whole response *)
+          if aborted then verdict false "a response served without the origin was cut short of its declared length" else v_ok
         end
       else v_ok in
   let v15 :=
